@@ -66,7 +66,7 @@ PROPS = {
                 dict(module="MC_SM2Sig", cfg="MC_SM2Sig_q_none", tier="quick", about="toy curve F_11 (n = 7): every d, k, digest: Sign in range and verifies, code-shaped signer = standard; every (r', s') of the byte range: VerifyImpl <=> Valid"),
                 dict(module="MC_SM2Sig", cfg="MC_SM2Sig_none", tier="thorough", timeout=1500, about="same on the F_23 curve (n = 29), byte range 0..31: 268 801 states")],
         stages=[dict(suite="sm2sig", trace="TraceSM2", plan=dict(module="PlanSM2Sig", cfg_quick="PlanSM2Sig_q", cfg_thorough="PlanSM2Sig_t"),
-                     required_classes={"both": ["sm2.sign/fixed-nonce", "sm2.sign/free-nonce", "sm2.verify/untouched", "sm2.sign_digest/retry.r=0", "sm2.sign_digest/retry.r+k=n", "sm2.sign_digest/retry.s=0", "sm2.verify_digest/digest.sparse-t"]})],
+                     required_classes={"both": ["sm2.sign/fixed-nonce", "sm2.sign/free-nonce", "sm2.verify/untouched", "sm2.sign_digest/retry.r=0", "sm2.sign_digest/retry.r+k=n", "sm2.sign_digest/retry.s=0", "sm2.verify_digest/digest.sparse-t", "sm2.verify_digest/digest.edge-valid"]})],
         assumptions=["SM2.tla transcribes GB/T 32918.2 (anchored by the GM/T 0003.5 Annex A signature as ASSUME)", "BigNat Java override (cross-checked by MC_BigNat)"],
     ),
     "C04": dict(
